@@ -77,7 +77,7 @@ func waitReturn(want int) bool {
 	select {
 	case <-done:
 		return true
-	case <-time.After(20 * time.Second):
+	case <-time.After(sut.Patience(20 * time.Second)):
 		return false
 	}
 }
